@@ -205,6 +205,12 @@ func (c CodeQuery) Exec(ctx *Context, loc *Location, qc QueryContext, qr QueryRe
 	}
 	// ToDo: Somehow reuse Javascript runtimes to avoid re-loading code.
 
+	if loc != nil {
+		// The script's environment works on "the context's
+		// location": see ExecAction.
+		ctx.SetLoc(loc)
+	}
+
 	for _, bs := range qr.Bss {
 		Log(DEBUG, ctx, "CodeQuery.Exec", "script", script, "bs", bs)
 
